@@ -35,15 +35,18 @@ Definition put_at (a : arc) (i : Z) (p : point) : arc :=
 (** single write as done by UpdatePointForArchive / propagate *)
 Definition put (a : arc) (t v : Z) : arc := put_at a (get_point_index a t) (mkPoint t v).
 
-(** [Whisper.fetchRawPoints] *)
+(** [Whisper.fetchRawPoints] (with the F7 repair: the end index is derived from the start
+    index and the length of the result).  [None] = panic: negative length handed to make, or an
+    index past the result slice. *)
 Definition fetch_raw (a : arc) (f u : Z) : option (list point) :=
   let b := base_interval a in
   let cnt := Z.quot (ts_sub u f) (a_step a) in
   let fi := point_index a b f in
-  let ui := point_index a b u in
+  let ui := Z.rem (fi + cnt) (a_n a) in
   let sq := if fi <? ui then slice (a_slots a) fi ui
             else slice (a_slots a) fi (a_n a) ++ slice (a_slots a) 0 ui in
-  if zlen sq >? cnt then None
+  if cnt <? 0 then None
+  else if zlen sq >? cnt then None
   else Some (sq ++ repeat zero_point (Z.to_nat (cnt - zlen sq))).
 
 (** [clearOldPoints] followed by [Points.Values] *)
